@@ -35,13 +35,19 @@ def point_fields(eng, cname: str) -> List[str]:
     return out
 
 
+_REACHED: Optional[Set[int]] = None  # statements reached in the operand-type context that is being examined
+
+
 def _subst_locals(fi: FunctionInfo, e: ast.AST, depth=0) -> ast.AST:
-    """replace a local name that has a single definition by its defining expression"""
+    """replace a local name that has a single definition (among the statements reached in the current type context)
+    by its defining expression"""
     if depth > 3:
         return e
     asg = assigned_names(fi.node)
     if isinstance(e, ast.Name) and e.id in asg and e.id not in fi.params:
         defs = asg[e.id]
+        if _REACHED is not None:
+            defs = [d for d in defs if id(d) in _REACHED] or defs
         if len(defs) == 1 and isinstance(defs[0], ast.Assign):
             return _subst_locals(fi, defs[0].value, depth + 1)
     return e
@@ -50,6 +56,10 @@ def _subst_locals(fi: FunctionInfo, e: ast.AST, depth=0) -> ast.AST:
 def conjuncts(fi: FunctionInfo, e: ast.AST) -> Optional[List[ast.AST]]:
     """flatten a conjunction; None if the top-level connective is not `and`"""
     e = _subst_locals(fi, e)
+    if fi.cls is not None:
+        # helper methods of the class read as their bodies:  self._end_points_in(other)  /  other._end_points_in(self)
+        from ..astutil import inline_self_calls
+        e = inline_self_calls(fi.cls.lookup, tuple(fi.params[:2]), e)
     if isinstance(e, ast.BoolOp):
         if not isinstance(e.op, ast.And):
             return None
@@ -172,6 +182,9 @@ def r52(ctx, res, resolved):
         for fi, t, bound, cls in r["nodes"]:
             if cls != "ok" or not isinstance(t, ast.Return) or t.value is None:
                 continue
+            global _REACHED
+            sm_ = eng.memo.get((fi.qual, bound))
+            _REACHED = sm_.reached if sm_ is not None else None
             in_form = fi.name == "in_"
             x_name = fi.params[0] if in_form else fi.params[1]
             s_name = fi.params[1] if in_form else fi.params[0]
@@ -440,6 +453,15 @@ def r55_inclusive_thresholds(ctx, res, cnames=("Line", "Plane", "Segment", "Half
                     if isinstance(c0, ast.Call) and isinstance(c0.func, ast.Attribute) and isinstance(c0.func.value, ast.Name) \
                             and c0.func.value.id == m.self_name and c0.func.attr.startswith("_") and not c0.func.attr.startswith("__"):
                         hm = ctx.repo.cls(cname).lookup(c0.func.attr)
+                        if hm is not None and all(hm is not b_[0] for b_ in bodies) and len(bodies) < 5:
+                            reached_h = set()
+                            for _, sh in eng.summaries_of(hm):
+                                reached_h |= sh.reached
+                            bodies.append((hm, ctx.cfg(hm), reached_h))
+                    elif isinstance(c0, ast.Call) and isinstance(c0.func, ast.Name) and c0.func.id.startswith("_"):
+                        # a private function of the same module (`_on_inner_side(normal, start, end, point)`)
+                        b0 = m.resolve(c0.func.id)
+                        hm = b0.target if (b0 is not None and b0.kind == "func" and b0.target.module is m.module) else None
                         if hm is not None and all(hm is not b_[0] for b_ in bodies) and len(bodies) < 5:
                             reached_h = set()
                             for _, sh in eng.summaries_of(hm):
